@@ -1074,10 +1074,13 @@ static void setup_trigger(char *filter_str, struct uftrace_sym_info *sinfo,
 
 		if (module) {
 			if (!strcasecmp(module, "PLT")) {
-				setting->plt_only = true;
-				ret += update_trigger_entry(&triggers->root, &patt, &tr,
-							    sinfo->exec_map, setting);
-				setting->plt_only = false;
+				/* no executable mapping (or no symbols for it): nothing can match */
+				if (sinfo->exec_map && sinfo->exec_map->mod) {
+					setting->plt_only = true;
+					ret += update_trigger_entry(&triggers->root, &patt, &tr,
+								    sinfo->exec_map, setting);
+					setting->plt_only = false;
+				}
 			}
 			else if (has_kernel_opt(module)) {
 				struct uftrace_mmap kernel_map = {
